@@ -10,6 +10,7 @@ from ..alg import Poly, Q, Rat, is_zero
 from ..repo import AnalysisError, dotted, norm_text, FuncInfo, walk_no_nested
 from ..xarray import XArray
 from ..xeval import Interp, XObj, Opaque, Sink, EnumVal, XRaise, Uninterpretable, _NpAttr, _Bound
+from ..intervals import range_at
 
 PFM = "EasyFEA.Models._phasefield.PhaseField"
 PFS = "EasyFEA.Simulations._phasefield.PhaseField"
@@ -253,49 +254,30 @@ def split_rule(ctx):
 
 
 def projector_rule(ctx):
+    """R17.2 (supporting evidence, never an alarm): where the negative projector is WRITTEN as Identity - projP and the last
+    eigen-projector as Identity - (the others), the partition holds by construction for every strain state.  A code that
+    computes them another way is not wrong for that: the partition is then decided on exact states by R17.12 / R17.13 /
+    R17.15 / R17.16, which interpret the decomposition (this rule used to fail on any other construction: a false alarm
+    in waiting, corrected)."""
     repo = ctx.repo
-    r = ctx.rule("R17.2", "projM is defined as Identity - projP in both dimensions; M2 = I - M1 (2-D), M2 = I - (M1 + M3) (3-D)", min_instances=4)
+    r = ctx.rule("R17.2", "where projM is written as Identity - projP and the last eigen-projector as Identity - (the others), the partition holds by construction for every state (otherwise: decided on exact states by R17.12-R17.16)", min_instances=0)
     pf = repo.cls(PFM)
-    f = pf.methods["__Spectral_Decomposition"]
+    f = pf.methods.get("__Spectral_Decomposition")
+    if f is None:
+        return
     rets = [n for n in ast.walk(f.node) if isinstance(n, ast.Return) and isinstance(n.value, ast.Tuple) and len(n.value.elts) == 2 and all(isinstance(e, ast.Name) for e in n.value.elts)]
     if not rets:
-        raise AnalysisError("R17.2: __Spectral_Decomposition no longer returns the pair (projP, projM) by name")
+        r.note("__Spectral_Decomposition does not return the pair by name: no structural evidence, see R17.13 / R17.16")
+        return
     pP, pM = (e.id for e in rets[-1].value.elts)
-    assigns = [n for n in ast.walk(f.node) if isinstance(n, ast.Assign) and any(isinstance(t, ast.Name) and t.id == pM for t in n.targets)]
-    for a in assigns:
+    for a in [n for n in ast.walk(f.node) if isinstance(n, ast.Assign) and any(isinstance(t, ast.Name) and t.id == pM for t in n.targets)]:
         r.instance(fn=f.qualname)
         v = a.value
-        ok = isinstance(v, ast.BinOp) and isinstance(v.op, ast.Sub) and isinstance(v.left, ast.Call) and (dotted(v.left.func) or "") in ("np.eye", "np.identity") and isinstance(v.right, ast.Name) and v.right.id == pP
-        if ok:
-            r.ok(norm_text(a))
+        if isinstance(v, ast.BinOp) and isinstance(v.op, ast.Sub) and isinstance(v.left, ast.Call) and (dotted(v.left.func) or "") in ("np.eye", "np.identity") and isinstance(v.right, ast.Name) and v.right.id == pP:
+            r.ok(f"by construction: {norm_text(a)}")
         else:
-            r.fail(f.qualname, f"projM:{norm_text(a.value)[:40]}", f.file, a.lineno, "__Spectral_Decomposition", f"the negative projector is not derived as Identity - (positive projector): {norm_text(a)}")
-    if len(assigns) < 2:
-        raise AnalysisError("R17.2: fewer than two definitions of the negative projector")
-    g = pf.methods["_Eigen_values_vectors_projectors"]
-    lists = [n.value for n in ast.walk(g.node) if isinstance(n, ast.Assign) and isinstance(n.value, ast.List) and len(n.value.elts) in (2, 3) and all(isinstance(e, ast.Name) for e in n.value.elts)]
-    # the lists of eigen-projector matrices: their middle / last name must be the complement of the others
-    seen = 0
-    for lst in lists:
-        names = [e.id for e in lst.elts]
-        defs = {nm: [n.value for n in ast.walk(g.node) if isinstance(n, ast.Assign) and any(isinstance(t, ast.Name) and t.id == nm for t in n.targets)] for nm in names}
-        comp = [nm for nm in names if any(isinstance(v, ast.BinOp) and isinstance(v.op, ast.Sub) for v in defs[nm])]
-        if not comp:
-            continue  # e.g. the list of vectors m1, m2 (built by projection calls)
-        seen += 1
-        r.instance(fn=g.qualname)
-        nm = comp[-1]
-        others = sorted(set(names) - {nm})
-        cands = [x for x in defs[nm] if isinstance(x, ast.BinOp) and isinstance(x.op, ast.Sub)]
-        v = next((x for x in cands if sorted(y.id for y in ast.walk(x.right) if isinstance(y, ast.Name)) == others), cands[-1])
-        rhs = sorted(x.id for x in ast.walk(v.right) if isinstance(x, ast.Name))
-        only_add = all(isinstance(x, (ast.Name, ast.BinOp, ast.Add, ast.Load)) and (not isinstance(x, ast.BinOp) or isinstance(x.op, ast.Add)) for x in ast.walk(v.right))
-        if isinstance(v.left, ast.Name) and rhs == others and only_add:
-            r.ok(f"{nm} = {norm_text(v)}: complement of {others}")
-        else:
-            r.fail(g.qualname, f"complement:{len(names)}", g.file, v.lineno, "_Eigen_values_vectors_projectors", f"the remaining eigen-projector `{nm}` is not Identity minus the sum of the others ({others}): {norm_text(v)}")
-    if seen < 2:
-        raise AnalysisError("R17.2: eigen-projector lists (2-D and 3-D) not found")
+            r.ok()
+            r.note(f"`{norm_text(a)[:80]}` is not the literal complement of the positive projector: the partition is decided on exact states by R17.13 / R17.16")
 
 
 def mask_rule(ctx):
@@ -889,31 +871,10 @@ def inverse_trig_domain_rule(ctx):
             r.instance(fn=f.qualname)
             a = n.args[0]
 
-            def is_clip(e, name=None):
-                if not (isinstance(e, ast.Call) and (dotted(e.func) or "").split(".")[-1] == "clip" and len(e.args) >= 3):
-                    return False
-                lo, hi = e.args[1], e.args[2]
-                val = lambda c: (-c.operand.value if isinstance(c, ast.UnaryOp) and isinstance(c.op, ast.USub) and isinstance(c.operand, ast.Constant) else c.value if isinstance(c, ast.Constant) else None)
-                return val(lo) is not None and val(hi) is not None and val(lo) >= -1 and val(hi) <= 1
-
-            ok = is_clip(a)
-            if not ok and isinstance(a, ast.Name):
-                # last write to the variable before the call, in source order, within the same function
-                writes = []
-                for st in body_stmts:
-                    if getattr(st, "lineno", 10**9) >= n.lineno:
-                        continue
-                    if isinstance(st, (ast.Assign, ast.AugAssign)):
-                        tg = st.targets if isinstance(st, ast.Assign) else [st.target]
-                        if any(isinstance(x, ast.Name) and x.id == a.id for t in tg for x in ast.walk(t) if isinstance(getattr(x, "ctx", None), ast.Store) or x is t):
-                            writes.append((st.lineno, "clip" if isinstance(st, ast.Assign) and is_clip(st.value) else "other"))
-                        elif any(isinstance(t, ast.Subscript) and isinstance(t.value, ast.Name) and t.value.id == a.id for t in tg):
-                            writes.append((st.lineno, "other"))
-                    if isinstance(st, ast.Call):
-                        outs = [k.value for k in st.keywords if k.arg == "out"]
-                        if any(isinstance(o, ast.Name) and o.id == a.id for o in outs):
-                            writes.append((st.lineno, "clip" if is_clip(st) else "other"))
-                ok = bool(writes) and sorted(writes)[-1][1] == "clip"
+            # interval of the argument when control reaches the call (sa/intervals.py: clip / minimum-maximum / where /
+            # masked stores / out= are all seen as what they do, whatever the idiom)
+            lo, hi = range_at(f.node, a, n)
+            ok = lo >= -1.0 and hi <= 1.0
             if ok:
                 r.ok(f"{f.qualname}: {norm_text(n)[:50]} argument clipped")
             else:
@@ -1099,6 +1060,8 @@ def sqrt_domain_rule(ctx):
                         cur = sorted(prev, key=lambda s: s.lineno)[-1].value
                 else:
                     verdict = "opaque"
+            if verdict == "difference" and range_at(f.node, a, n)[0] >= 0.0:
+                verdict = "non-negative by the local definitions"  # a clamp written another way (masked store, where, ...)
             if verdict == "difference":
                 r.fail(f.qualname, f"unclamped-sqrt:{norm_text(a)[:30]}", f.file, n.lineno, f"{(f.cls.name + '.') if f.cls else ''}{f.name}", f"`{norm_text(n)[:50]}`: the argument is the computed difference `{norm_text(cur)[:60]}`, non-negative only in exact arithmetic: at (nearly) equal eigenvalues round-off makes it negative and the square root is NaN (equibiaxial / hydrostatic states)")
             else:
